@@ -174,6 +174,8 @@ def random_script(rng, target, nsteps):
                 steps.append({"a": "run", "ssrc": 1, "seq": seq1 % 65536, "tw": tw % 65536, "twcc": True, "ext": ext, "n": n,
                               "size": rng.randrange(50, 1200), "dep": now, "gap": rng.choice([0, 100, 1000])})
                 seq1 += n
+            if target == "rtpfb" and n <= 5 and rng.random() < 0.3:
+                steps[-1]["loop"] = True         # loopback transport: feedback about a packet is read from inside its Write
             now += n * 1000
             tw += n
         elif q < 0.45:
@@ -181,6 +183,8 @@ def random_script(rng, target, nsteps):
             n = rng.choice([1, 2, 8, 30])
             steps.append({"a": "run", "ssrc": s, "seq": streams[s] % 65536, "tw": 0, "twcc": False, "ext": False, "n": n,
                           "size": rng.randrange(50, 1200), "dep": now, "gap": rng.choice([0, 1000])})
+            if target == "rtpfb" and n <= 2 and rng.random() < 0.3:
+                steps[-1]["loop"] = True
             now += n * 1000
             streams[s] = (streams[s] + n) % 65536
         elif q < 0.52:
@@ -205,7 +209,10 @@ def random_script(rng, target, nsteps):
                     fbs[0]["deltas"].pop()
                     fbs[0]["dtypes"].pop()
             steps.append({"a": "fb", "wire": wire, "at": now, "fbs": fbs})
-    return {"target": target, "refbase": rng.choice(REFBASES), "steps": steps}
+    sc = {"target": target, "refbase": rng.choice(REFBASES), "steps": steps}
+    if target == "rtpfb" and rng.random() < 0.4:
+        sc["twin"] = True                        # a second connection of the same factory sends look-alike packets
+    return sc
 
 
 def comp_script(rng, nsend):
